@@ -13,7 +13,8 @@
 EXTENDS SidecarDecision
 
 CONSTANTS Starters,      \* names of the processes started by the user
-          MarkerSet,     \* markers a starter may carry
+          MarkerSet,     \* what a starter finds in its environment: "unset", "empty" (set but empty), "1", "2", "other"
+          LeakSet,       \* whether GO_TELEMETRY_CHILD_UPLOAD=1 is already in an application's environment
           CrashSet, UploadSet,   \* values of Config.ReportCrashes / Config.Upload of a starter
           ModeSet, TokenSet, LocalSet,  \* consent mode, initial token, local directory usable
           MaxFaults      \* how many failing system calls / killed starters a behaviour may contain
@@ -28,19 +29,38 @@ vars == <<mode, initToken, localOK, cfg, token, local, wrote, procs, ev, nf>>
 
 Entry(m) == CASE m = "unset" -> "p_mode" [] m = "1" -> "c_setenv" [] m = "2" -> "done" [] OTHER -> "fatal"
 
-NewProc(m, role, crash, upload, upvar) ==
-  [born |-> m, marker |-> m, role |-> role, crash |-> crash, upload |-> upload, upvar |-> upvar,
+(* The environment of a process is the list of NAME=value entries it was    *)
+(* exec'ed with, in order; a child gets its parent's list plus what the      *)
+(* parent adds.  Looking a name up -- getenv, and the de-duplication os/exec *)
+(* applies to cmd.Env -- lets the LAST entry of that name win, so additions  *)
+(* must come after the inherited entries to take effect.                     *)
+CHILD == "GO_TELEMETRY_CHILD"
+UPLOAD == "GO_TELEMETRY_CHILD_UPLOAD"
+RECURSIVE Lookup(_, _)
+Lookup(env, name) == IF env = <<>> THEN "unset"
+                     ELSE IF env[Len(env)][1] = name THEN env[Len(env)][2]
+                     ELSE Lookup(SubSeq(env, 1, Len(env) - 1), name)
+ClassOf(v) == IF v \in {"unset", ""} THEN "unset" ELSE IF v \in {"1", "2"} THEN v ELSE "other"
+SetEnv(env, name, v) == SelectSeq(env, LAMBDA x : x[1] # name) \o << <<name, v>> >>
+EnvOfMarker(m) == CASE m = "unset" -> <<>> [] m = "empty" -> << <<CHILD, "">> >> [] m = "other" -> << <<CHILD, "3">> >>
+                    [] OTHER -> << <<CHILD, m>> >>
+
+NewProc(env, role, crash, upload) ==
+  LET m == ClassOf(Lookup(env, CHILD)) IN
+  [born |-> m, marker |-> m, env |-> env, role |-> role, crash |-> crash, upload |-> upload, upvar |-> Lookup(env, UPLOAD) = "1",
    pc |-> Entry(m), seen |-> "none", acq |-> FALSE]
 
 Init == /\ mode \in ModeSet /\ initToken \in TokenSet /\ localOK \in LocalSet
-        /\ cfg \in [Starters -> [marker : MarkerSet, crash : CrashSet, upload : UploadSet]]
+        /\ cfg \in {c \in [Starters -> [marker : MarkerSet, crash : CrashSet, upload : UploadSet, leak : LeakSet]] :
+                      \A s \in Starters : c[s].leak => c[s].marker \in {"unset", "empty"}}
         /\ token = initToken
         /\ local = IF ~localOK THEN "unusable" ELSE IF initToken = "absent" THEN "absent" ELSE "present"
         /\ wrote = {}
         /\ procs = [id \in {<<s>> : s \in Starters} |->
                       \* a starter that claims to be the sidecar is told to upload iff it is configured to
-                      NewProc(cfg[id[1]].marker, "app", cfg[id[1]].crash, cfg[id[1]].upload,
-                              cfg[id[1]].marker = "1" /\ cfg[id[1]].upload)]
+                      NewProc(EnvOfMarker(cfg[id[1]].marker)
+                                \o (IF cfg[id[1]].leak \/ (cfg[id[1]].marker = "1" /\ cfg[id[1]].upload) THEN << <<UPLOAD, "1">> >> ELSE <<>>),
+                              "app", cfg[id[1]].crash, cfg[id[1]].upload)]
         /\ ev = {} /\ nf = 0
 
 Ids == DOMAIN procs
@@ -91,13 +111,15 @@ TCreate(p) == /\ procs[p].pc = "t_create"
 PSpawn(p) == /\ procs[p].pc = "p_spawn"
              /\ LET c == Append(p, "c") IN
                 procs' = [q \in Ids \cup {c} |->
-                            IF q = c THEN NewProc("1", procs[p].role, procs[p].crash, procs[p].upload, procs[p].acq)
+                            \* the marker (and the upload flag) are appended AFTER the inherited environment
+                            IF q = c THEN NewProc(procs[p].env \o << <<CHILD, "1">> >> \o (IF procs[p].acq THEN << <<UPLOAD, "1">> >> ELSE <<>>),
+                                                  procs[p].role, procs[p].crash, procs[p].upload)
                             ELSE IF q = p THEN [procs[p] EXCEPT !.pc = "done"] ELSE procs[q]]
              /\ UNCHANGED <<token, local, wrote, ev>> /\ Fixed
 (* ---- the sidecar ("child") --------------------------------------------- *)
 (* the marker becomes "2" before anything else happens in the child *)
 CSetenv(p) == /\ procs[p].pc = "c_setenv"
-              /\ procs' = [procs EXCEPT ![p] = [@ EXCEPT !.marker = "2", !.pc = "c_open"]]
+              /\ procs' = [procs EXCEPT ![p] = [@ EXCEPT !.marker = "2", !.env = SetEnv(@, CHILD, "2"), !.pc = "c_open"]]
               /\ UNCHANGED <<token, local, wrote, ev>> /\ Fixed
 COpen(p) == /\ procs[p].pc = "c_open"
             /\ IF mode # "off" THEN OpenCounters ELSE UNCHANGED <<local, wrote>>
@@ -109,7 +131,7 @@ COpen(p) == /\ procs[p].pc = "c_open"
 CGo(p) == /\ procs[p].pc = "c_go"
           /\ LET g == Append(p, "g") IN
              procs' = [q \in Ids \cup {g} |->
-                         IF q = g THEN NewProc(procs[p].marker, "go", TRUE, TRUE, procs[p].upvar)
+                         IF q = g THEN NewProc(procs[p].env, "go", TRUE, TRUE)
                          ELSE IF q = p THEN [procs[p] EXCEPT !.pc = "done"] ELSE procs[q]]
           /\ UNCHANGED <<token, local, wrote, ev>> /\ Fixed
 
@@ -168,7 +190,7 @@ NoChildWhenOff == mode = "off" => /\ \A p \in Ids : Len(p) = 1
 ChildOnlyIfNeeded == \A p \in Ids : IsSidecar(p) =>
                        /\ mode # "off"
                        /\ (procs[Parent(p)].crash \/ procs[Parent(p)].acq)
-                       /\ (procs[p].upvar => procs[Parent(p)].acq)
+                       /\ (procs[p].upvar => (procs[Parent(p)].acq \/ Lookup(procs[Parent(p)].env, UPLOAD) = "1"))
 (* with no stale token present the token is acquired at most once within    *)
 (* 24 hours; a fresh token stands for one acquisition already made           *)
 AtMostOneAcquire == initToken # "stale" =>
@@ -181,25 +203,31 @@ OnlyApplicationsAcquire == \A p \in Acquirers : procs[p].born = "unset" /\ procs
 Termination == <>[]Quiescent
 
 (* for a single starter the quiescent outcome is the row of the table *)
-RowOf(s) == [marker |-> cfg[s].marker, crash |-> cfg[s].crash, upload |-> cfg[s].upload,
+(* the process the application launches as its sidecar finds GO_TELEMETRY_CHILD=1, *)
+(* whatever the application itself inherited (unset, set but empty)              *)
+IsLaunchedSidecar(p) == Len(p) > 1 /\ p[Len(p)] = "c"
+SidecarSeesMarker == \A p \in Ids : IsLaunchedSidecar(p) => procs[p].born = "1"
+
+RowOf(s) == [marker |-> ClassOf(Lookup(EnvOfMarker(cfg[s].marker), CHILD)), crash |-> cfg[s].crash, upload |-> cfg[s].upload,
              mode |-> mode, token |-> initToken, localOK |-> localOK]
 OutcomeOf(s) ==
   LET mine == {p \in Ids : p[1] = s /\ Len(p) > 1} IN
   [ sidecars  |-> Cardinality({p \in mine : Len(p) = 2 /\ procs[p].born = "1"}),
     uploaders |-> Cardinality({p \in mine : Len(p) = 2 /\ procs[p].born = "1" /\ procs[p].upvar}),
-    nested    |-> Cardinality({p \in mine : Len(p) > 2 /\ procs[p].born = "1"}),
+    nested    |-> Cardinality({p \in mine : Len(p) > 2 /\ (procs[p].born = "1" \/ IsLaunchedSidecar(p))}),
+    unmarked  |-> Cardinality({p \in mine : IsLaunchedSidecar(p) /\ procs[p].born # "1"}),
     launched  |-> Cardinality(mine),
     acquired  |-> procs[<<s>>].acq,
     wrote     |-> wrote ]
 SequentialAgreesWithTable ==
-  (Cardinality(Starters) = 1 /\ Quiescent /\ nf = 0) => \A s \in Starters : OutcomeOf(s) = Predicted(RowOf(s), DefaultExtras)
+  (Cardinality(Starters) = 1 /\ Quiescent /\ nf = 0) => \A s \in Starters : OutcomeOf(s) = Predicted(RowOf(s), [DefaultExtras EXCEPT !.leak = cfg[s].leak])
 (* with no stale token present, two equal starters together do, in every    *)
 (* interleaving, what two starts in sequence do according to the table       *)
 PairAgreesWithTable ==
   (Starters = {"s1", "s2"} /\ Quiescent /\ nf = 0 /\ initToken # "stale" /\ cfg["s1"] = cfg["s2"]) =>
      \A s \in Starters : LET o == [x \in {"sidecars", "uploaders", "nested", "launched"} |->
                                       OutcomeOf("s1")[x] + OutcomeOf("s2")[x]]
-                               q == Predicted(RowOf(s), [DefaultExtras EXCEPT !.calls = 2])
+                               q == Predicted(RowOf(s), [DefaultExtras EXCEPT !.calls = 2, !.leak = cfg[s].leak])
                            IN /\ \A x \in DOMAIN o : o[x] = q[x]
                               /\ (procs[<<"s1">>].acq \/ procs[<<"s2">>].acq) = q.acquired /\ wrote = q.wrote
 
